@@ -24,9 +24,13 @@ def _usable_call(g, ctx, mix, base, tries=6):
     return mk('get_res0_cells')
 
 
-def _same_cell_anchor(g):
+def _same_cell_anchor(g, p_coarse=0.1):
     p, res = g.base()
-    res = max(2, min(res, 20)) if g.rng.random() < 0.8 else res
+    x = g.rng.random()
+    if x < p_coarse:
+        res = g.rng.choice([0, 0, 1])         # the special, non-Hilbert levels (shared face / quintant shapes)
+    elif x < 0.8:
+        res = max(2, min(res, 20))
     return {'p': p, 'res': res, 'cell': g.cell_at(p, res)}
 
 
@@ -39,7 +43,7 @@ def _same_cell_call(g, ctx, sc):
     if x == 1:
         return mk('cell_to_lonlat', sc['cell'])
     if x == 2:
-        return mk('cell_to_boundary', sc['cell'], {'segments': r.choice([1, 1, 2])})
+        return mk('cell_to_boundary', sc['cell'], {'segments': r.choice([1, 1, 2, 3, 5])})
     if x == 3:
         return mk('cell_to_boundary', sc['cell'], *g.boundary_options())
     c = ctx.value(mk('cell_to_lonlat', sc['cell']))
@@ -128,8 +132,8 @@ SWEEP_KINDS = ['samecell-cold', 'samecell-other', 'repeat-recent', 'identical-co
                'far-cold', 'samecell-hot', 'edge-cold', 'samecell-cold@instr', 'repeat-recent@instr',
                'coarse-cold', 'coarse-other', 'hier-other', 'capacity-256', 'capacity-1024',
                'hier-other@instr', 'coarse-cold@instr', 'tiny@instr', 'tiny@instr', 'tiny@instr', 'tiny@instr',
-               'tiny@instr', 'tiny@instr', 'tiny@instr', 'tiny@instr',
-               # thorough tier only (the quick tier runs the first 25 kinds):
+               'tiny@instr', 'tiny@instr', 'tiny@instr', 'tiny@instr', 'diffparam-cold', 'diffparam-cold', 'diffparam-cold',
+               # thorough tier only (the quick tier runs the first 28 kinds):
                'capacity-4096', 'capacity-65536', 'capacity-16384', 'capacity-512', 'capacity-2048', 'capacity-1000']
 
 
@@ -157,7 +161,35 @@ def gen_sweep(ctx, rng, kind):
     wa, wb = rng.randrange(3), rng.randrange(3)
     warm = []
     bulk = None
-    if kind == 'tiny':
+    if kind.startswith('diffparam'):
+        # the same function about the same (or a like) cell, the two calls differing only in a parameter: options
+        # of cell_to_boundary, target resolutions of children / parent / uncompact, resolution of lonlat_to_cell --
+        # the pairs that meet in per-object or per-cell memos whose key leaves the parameter out
+        sc = _same_cell_anchor(g, p_coarse=0.4)
+        sc2 = sc
+        if rng.random() < 0.4:
+            p2 = g.point()
+            sc2 = {'p': p2, 'res': sc['res'], 'cell': g.cell_at(p2, sc['res'])}     # another cell of the same level
+        f = wchoice(rng, {'cell_to_boundary': 40, 'cell_to_children': 15, 'cell_to_parent': 10, 'uncompact': 15, 'lonlat_to_cell': 20})
+        def dp(sc_, which):
+            res_ = max(0, sc_['res'])
+            if f == 'cell_to_boundary':
+                return mk(f, sc_['cell'], [{'segments': 2}, {'segments': 5}, {}, {'closed_ring': False, 'segments': 3},
+                                           {'segments': 'auto'}, {'segments': 8, 'closed_ring': True}][which])
+            if f == 'cell_to_children':
+                return mk(f, sc_['cell'], min(29, res_ + 1 + which % 3))
+            if f == 'cell_to_parent':
+                return mk(f, sc_['cell'], max(-1, res_ - 1 - which % 3))
+            if f == 'uncompact':
+                return mk(f, [sc_['cell']], min(29, res_ + which % 3))
+            return mk(f, sc_['p'], max(0, min(29, res_ + which % 4)))
+        ia = rng.randrange(6)
+        ib = (ia + rng.randint(1, 5)) % 6
+        A, B = dp(sc, ia), dp(sc2, ib)
+        if rng.random() < 0.3:
+            warm = [dp(sc, (ia + 3) % 6)]
+        kind = 'diffparam'
+    elif kind == 'tiny':
         # two very small calls of the counting / hierarchy / hex functions with related arguments (same or
         # neighbouring resolution, same cell), cold: small enough for every bytecode boundary of A to be tried
         res = rng.randint(2, 28)
@@ -240,7 +272,7 @@ def matrix_call(g, ctx, f, anc):
     if f == 'cell_to_lonlat':
         return mk(f, cell)
     if f == 'cell_to_boundary':
-        return mk(f, cell, *r.choice([({'segments': 1},), (), ({'closed_ring': False},), ({'segments': 2},)]))
+        return mk(f, cell, *r.choice([({'segments': 1},), (), ({'closed_ring': False},), ({'segments': 2},), ({'segments': 3},)]))
     if f == 'cell_to_parent':
         return mk(f, cell) if r.random() < 0.5 else mk(f, cell, max(0, res - r.randint(1, 2)))
     if f == 'cell_to_children':
@@ -270,7 +302,7 @@ def gen_matrix_sweep(ctx, rng, fa, fb, tier):
     related arguments (the same cell, a sibling, or another cell), cold / on state left by other cells / hot;
     every line boundary of A (every bytecode boundary when A is short) with B run to completion in the gap."""
     g = Gen(rng, ctx)
-    anc = _same_cell_anchor(g)
+    anc = _same_cell_anchor(g, p_coarse=0.2)
     rel = wchoice(rng, {'same': 35, 'sibling': 25, 'other': 40})
     anc_b = anc
     if rel == 'sibling':
@@ -282,7 +314,7 @@ def gen_matrix_sweep(ctx, rng, fa, fb, tier):
             ctr = ctx.value(mk('cell_to_lonlat', c))
             anc_b = {'p': ctr if isinstance(ctr, tuple) else anc['p'], 'res': anc['res'], 'cell': c}
     elif rel == 'other':
-        anc_b = _same_cell_anchor(g)
+        anc_b = _same_cell_anchor(g, p_coarse=0.5 if anc['res'] < 2 else 0.1)
     A = matrix_call(g, ctx, fa, anc)
     B = matrix_call(g, ctx, fb, anc_b)
     if not (ctx.usable(A) and ctx.usable(B)):
@@ -304,6 +336,139 @@ def gen_matrix_sweep(ctx, rng, fa, fb, tier):
     return {'threads': threads, 'warm': warm, 'plan': {'plan': 'one', 'a': 0, 'k': 0, 'order': [1]}, 'seed': 0, **extra,
             'budget': 20 * est + 100_000 * (1 if gran == 'line' else 8), 'est_len': est, 'gran': gran, 'post': True,
             'conf': {'T': 2, 'locality': 'matrix-' + rel, 'mix': 'all', 'temp': temp, 'counts': [1, 1]}}
+
+
+def _accessors(path):
+    """'mod:glob.attr[3]{key}.x' -> ['mod:glob', '.attr', '[3]', '{key}', '.x']"""
+    out, cur, depth = [], '', 0
+    head = True
+    for ch in path:
+        if head:
+            if ch in '.[{#' and ':' in cur:
+                out.append(cur)
+                cur, head = ch, False
+                depth = 1 if ch == '{' else 0
+            else:
+                cur += ch
+            continue
+        if depth:
+            cur += ch
+            if ch == '}':
+                depth = 0
+            continue
+        if ch in '.[{#':
+            out.append(cur)
+            cur = ch
+            depth = 1 if ch == '{' else 0
+        else:
+            cur += ch
+    out.append(cur)
+    return out
+
+
+def _slots(writes, max_depth=5):
+    """{prefix of 1..max_depth accessors: content hash of everything this call wrote under it}"""
+    import hashlib
+    groups = {}
+    for path, v in writes.items():
+        acc = _accessors(path)
+        for d in range(1, min(max_depth, len(acc)) + 1):
+            groups.setdefault((d, ''.join(acc[:d + 1]) if d < len(acc) else path), []).append((path, v))
+    return {k: hashlib.blake2b(repr(sorted(v)).encode(), digest_size=6).hexdigest() for k, v in groups.items()}
+
+
+def conflict_pool(ctx, rng, n=160):
+    """A diverse pool of small calls (all public functions; coarse and ordinary cells; same-cell groups; the same
+    function with different parameters) with the state paths each one leaves changed when run alone and cold.
+    Built once per check run, before the worker pool forks."""
+    g = Gen(rng, ctx)
+    calls = []
+    ancs = [_same_cell_anchor(g, p_coarse=1.0), _same_cell_anchor(g, p_coarse=1.0), _same_cell_anchor(g, p_coarse=0.0),
+            _same_cell_anchor(g, p_coarse=0.0)]
+    for anc in ancs:
+        for _ in range(8):
+            calls.append(_same_cell_call(g, ctx, anc))
+    for anc in ancs[1:3]:
+        for o in ({'segments': 2}, {'segments': 5}, {}, {'closed_ring': False, 'segments': 3}, {'segments': 'auto'}):
+            calls.append(mk('cell_to_boundary', anc['cell'], o))
+        res_ = max(0, anc['res'])
+        for d in (1, 2):
+            calls.append(mk('cell_to_children', anc['cell'], min(29, res_ + d)))
+            calls.append(mk('uncompact', [anc['cell']], min(29, res_ + d)))
+    for _ in range(24):
+        calls.append(g.coarse_call(wchoice(rng, {'cell_to_boundary': 4, 'cell_to_lonlat': 2, 'cell_to_children': 3, 'uncompact': 3,
+                                                  'compact': 2, 'cell_to_parent': 1, 'get_res0_cells': 1})))
+    while len(calls) < n:
+        calls.append(g.call(wchoice(rng, {'all': 5, 'hier': 3, 'geo': 2}), g.base() if rng.random() < 0.6 else None))
+    pool = []
+    seen = set()
+    for c in calls:
+        k = call_key(c)
+        if k in seen or not ctx.usable(c):
+            continue
+        seen.add(k)
+        if ctx.oracle(c)['steps'] > 20_000:
+            continue
+        pool.append((c, _slots(ctx.writes(c))))
+    writers = {}
+    for i, (c, sl) in enumerate(pool):
+        for k, h in sl.items():
+            writers.setdefault(k, []).append((i, h))
+    # candidates grouped by the top-level place (module global, or attribute / slot of it) they lie under, so that a
+    # structure with hundreds of slots does not crowd out a single shared attribute
+    cands = {True: {}, False: {}}
+    for k, ws in sorted(writers.items()):
+        if len(ws) < 2 or k[0] > 4:
+            continue
+        differ = len({h for _, h in ws}) > 1
+        top = ''.join(_accessors(k[1])[:2])
+        cands[differ].setdefault(top, []).append((1.0 / len(ws) ** 2, k, ws))
+    return {'calls': [c for c, _ in pool], 'cands': cands,
+            'places_written_by_two_or_more_calls': sum(len(v) for d in cands.values() for v in d.values()),
+            'places_written_with_different_content': sum(len(v) for v in cands[True].values()),
+            'top_level_places_with_different_content': sorted(cands[True])}
+
+
+def gen_conflict_sweep(ctx, rng, tier):
+    """Conflict-directed pair: two calls whose solo executions change the same piece of library state (the same
+    global, attribute of a long-lived object, list slot or dict entry) -- with different content (they can
+    overwrite each other) or, less often, the same content (both fill one cold slot).  Which objects two calls
+    share is invisible in their arguments (a face shape shared by all resolution-0 cells, a memo that leaves an
+    option out of its key); the write sets show it.  The pair is then swept exhaustively."""
+    pool = getattr(ctx, 'conflict_pool', None)
+    if not pool:
+        return None
+    differ = bool(pool['cands'][True]) and (rng.random() < 0.75 or not pool['cands'][False])
+    tops = pool['cands'][differ]
+    if not tops:
+        return None
+    cands = tops[rng.choice(sorted(tops))]
+    tot = sum(c[0] for c in cands)
+    x = rng.random() * tot
+    pick = cands[-1]
+    for c in cands:
+        x -= c[0]
+        if x < 0:
+            pick = c
+            break
+    _, key, ws = pick
+    ws = list(ws)
+    rng.shuffle(ws)
+    ia, ha = ws[0]
+    rest = [(i, h) for i, h in ws[1:] if (h != ha) == differ] or ws[1:]
+    ib = rest[0][0]
+    A, B = pool['calls'][ia], pool['calls'][ib]
+    gran = 'instr' if ctx.oracle(A, gran='instr')['steps'] + 1 <= (1200 if tier == 'quick' else 6000) else 'line'
+    threads = [[A], [B]]
+    est = sum(ctx.oracle(c, gran=gran)['steps'] for tc in threads for c in tc)
+    extra = {}
+    pr = make_probes(Gen(rng, ctx), ctx, threads, 2)
+    if pr:
+        extra['probes'] = pr
+    return {'threads': threads, 'warm': [], 'plan': {'plan': 'one', 'a': 0, 'k': 0, 'order': [1]}, 'seed': 0, **extra,
+            'budget': 20 * est + 100_000 * (1 if gran == 'line' else 8), 'est_len': est, 'gran': gran, 'post': True,
+            'conflict': {'place': key[1][:160], 'different_content': differ, 'writers_in_pool': len(ws), 'pool': len(pool['calls'])},
+            'conf': {'T': 2, 'locality': 'conflict', 'mix': 'all', 'temp': 'cold', 'counts': [1, 1]}}
 
 
 def gen_spec(ctx, rng, tier, force=None):
